@@ -1,9 +1,23 @@
 use crate::engine::Registry;
 
 pub mod c01;
+pub mod c15;
+#[cfg(lucid_suggest_verif)]
+pub mod c16;
+#[cfg(lucid_suggest_verif)]
+pub mod c17;
+#[cfg(lucid_suggest_verif)]
+pub mod c19;
 
 pub fn registry() -> Registry {
     #[allow(unused_mut)]
-    let mut props = vec![c01::def()];
+    let mut props = vec![c01::def(), c15::def()];
+    #[cfg(lucid_suggest_verif)]
+    {
+        props.push(c16::def());
+        props.push(c17::def());
+        props.push(c19::def());
+    }
+    props.sort_by_key(|p| p.id);
     Registry { props }
 }
